@@ -17,8 +17,8 @@ pub const SPEC: PropSpec = PropSpec {
 	level: "exploration",
 	rule: "case = (schema, byte string) where bytes are a valid encoding (random layout, over-long varints injected in half of the cases), a 1-3 byte mutation of one, or random bytes, always followed by a sentinel tail; the slice outcome (Ok value + bytes consumed, or Err) is the reference for every partition of the same bytes into BufRead refills: every constant chunk size 1..len when len <= 64, else {1,2,3,5,7,8,9,16,len-1,len}, plus irregular partitions; targets: typed Collect, deserialize_any, IgnoredAny; the same for single-object input; distinct by hash(schema shape, bytes, partition)",
 	assumptions: &["equality of error text is not demanded, only Ok/Err, value and consumption"],
-	cases: (25_000, 3_000_000),
-	secs: (50, 600),
+	cases: (50_000_000, 4_000_000_000),
+	secs: (30, 600),
 	required: &["partitions_compared", "agree_ok", "agree_err", "overlong_varint_inputs", "single_object_compared"],
 	run_case,
 	once: None,
